@@ -564,6 +564,24 @@ Fixpoint bytes_loop (xs : list string) (i : bool) : string :=
 Definition enc_series_bytes (xs : list string) : string :=
   ("{""status"":""success"", ""data"":[" ++ bytes_loop xs false ++ "]}")%string.
 
+(* QueryLabelsService.Series after the repair: every stored text is decoded (storedLabels: encoding/json, or
+   strconv.Unquote for rows written with Go escapes; a text that is neither is skipped) and the map is encoded
+   again with json.Marshal (keys sorted). The model starts at the decoded maps. *)
+Fixpoint sep_loop' {A : Type} (item : A -> list token) (xs : list A) (i : bool) : list token :=
+  match xs with
+  | [] => []
+  | x :: r => (if i then [TComma] else []) ++ item x ++ sep_loop' item r true
+  end.
+Definition label_obj (l : list (string * string)) : list token :=
+  [TObjS] ++ sep_loop' (fun kv => [TStrJ (fst kv); TColon; TStrJ (snd kv)]) l false ++ [TObjE].
+Definition enc_series (ms : list (list (string * string))) : list token :=
+  [TObjS; TStr "status"; TColon; TStr "success"; TComma; sp; TStr "data"; TColon; TArrS] ++
+  sep_loop' label_obj ms false ++ [TArrE; TObjE].
+Definition label_obj_doc (l : list (string * string)) : json :=
+  JObj (map (fun kv => (sanitize (fst kv), JStr (sanitize (snd kv)))) l).
+Definition doc_series (ms : list (list (string * string))) : json :=
+  JObj [("status", JStr "success"); ("data", JArr (map label_obj_doc ms))].
+
 (* TempoController.Trace (JSON branch) and Search splice what json.Marshal produced for every span /
    trace between hand-written chunks; the Trace header is a raw string literal with line breaks *)
 Definition nl3 : string := String (chr 10) (String (chr 9) (String (chr 9) (String (chr 9) EmptyString))).
@@ -895,7 +913,7 @@ Definition model_bytes (c : case) : string :=
   | KTags => render (enc_tempo_tags (c_items c))
   | KTagValues => render (enc_tempo_values (c_items c))
   | KLabels => render (enc_labels (c_items c))
-  | KSeries => enc_series_bytes (c_items c)
+  | KSeries => render (enc_series (c_blbls c))
   | KPromMatrix => render (enc_prom_matrix (case_series c))
   | KPromVector => render (enc_prom_vector (case_series c))
   | KPromScalar => render (enc_prom_scalar (case_scalar c))
@@ -909,6 +927,35 @@ Fixpoint all_some {A} (l : list (option A)) : option (list A) :=
   | Some x :: r => match all_some r with Some r' => Some (x :: r') | None => None end
   | None :: _ => None
   end.
+(* /series: what the body must hold. The Coq reader decodes every stored text that is a JSON object of strings on
+   its own (duplicate names: the last one wins, as in a Go map); for the others (strconv.Quote escapes, garbage) the
+   decoding reported by the implementation's storedLabels is taken, skipped texts are left out *)
+Definition str_members (d : json) : option (list (string * string)) :=
+  match d with
+  | JObj l => all_some (map (fun kv => match snd kv with JStr v => Some (sanitize (fst kv), sanitize v) | _ => None end) l)
+  | _ => None
+  end.
+Fixpoint last_wins (l : list (string * string)) : list (string * string) :=
+  match l with
+  | [] => []
+  | kv :: r => if existsb (fun kv' => String.eqb (fst kv') (fst kv)) r then last_wins r else kv :: last_wins r
+  end.
+Definition coq_stored (item : string) : option (list (string * string)) :=
+  match parse_bytes item with Some d => option_map last_wins (str_members d) | None => None end.
+Fixpoint series_want (items : list string) (flags : list N) (sent : list (list (string * string)))
+  : list (list (string * string)) :=
+  match items, flags with
+  | it :: ir, f :: fr =>
+    let mine := if N.eqb f 1 then match sent with s :: _ => Some s | [] => None end else None in
+    let rest := if N.eqb f 1 then tl sent else sent in
+    match coq_stored it, mine with
+    | Some l, _ => l :: series_want ir fr rest
+    | None, Some s => s :: series_want ir fr rest
+    | None, None => series_want ir fr rest
+    end
+  | _, _ => []
+  end.
+
 (* None: the property does not speak about this case (a stored label document that is not JSON) *)
 Definition spec_doc (c : case) : option json :=
   match c_kind c with
@@ -922,7 +969,7 @@ Definition spec_doc (c : case) : option json :=
   | KTags => Some (doc_tempo_list "tagNames" (c_items c))
   | KTagValues => Some (doc_tempo_list "tagValues" (c_items c))
   | KLabels => Some (doc_labels (c_items c))
-  | KSeries => option_map doc_series_of (all_some (map parse_bytes (c_items c)))
+  | KSeries => Some (doc_series (series_want (c_items c) (c_order c) (c_blbls c)))
   | KTrace => option_map doc_trace_of (all_some (map parse_bytes (c_items c)))
   | KSearch => option_map doc_search_of (all_some (map parse_bytes (c_items c)))
   | KPromMatrix => Some (doc_prom_matrix (case_series c))
